@@ -123,8 +123,10 @@ func runWalOps(cfg walCfg, ops []walOp, dir string, ack *ackWriter) error {
 		return err
 	}
 	var a wal.WriteAheadLogAppendI
+	var facade wal.WriteAheadLogI
 	if cfg.Facade {
-		a, err = wal.NewWriteAheadLog(opts)
+		facade, err = wal.NewWriteAheadLog(opts)
+		a = facade
 	} else {
 		a, err = wal.NewAppender(opts)
 	}
@@ -132,6 +134,12 @@ func runWalOps(cfg walCfg, ops []walOp, dir string, ack *ackWriter) error {
 		return err
 	}
 	for i := range ops {
+		if facade != nil && ack == nil && i == len(ops)/2 {
+			// the same log object is replayed in the middle of its life (only what has reached the files by then) ...
+			if err := facade.Replay(func([]byte) error { return nil }); err != nil {
+				return fmt.Errorf("replay in the middle of the session: %w", err)
+			}
+		}
 		if ack != nil {
 			ack.begin(i)
 		}
@@ -150,7 +158,25 @@ func runWalOps(cfg walCfg, ops []walOp, dir string, ack *ackWriter) error {
 			ack.ack(i)
 		}
 	}
-	return a.Close()
+	if err := a.Close(); err != nil {
+		return err
+	}
+	if facade != nil && ack == nil {
+		// ... and again after Close: it must deliver everything that was appended, also into files created since
+		n, want := 0, 0
+		for _, o := range ops {
+			if o.Op != "rotate" && o.Err == "" {
+				want++
+			}
+		}
+		if err := facade.Replay(func([]byte) error { n++; return nil }); err != nil {
+			return fmt.Errorf("second replay through the same log object: %w", err)
+		}
+		if n != want {
+			return fmt.Errorf("the second replay through the same log object delivered %d of %d appended records", n, want)
+		}
+	}
+	return nil
 }
 
 func walChild(args []string) int {
